@@ -146,10 +146,15 @@ func CheckTimeValidity(availTimeS, nowS, timeShiftBufferDepthS, availabilityTime
 	if availabilityTimeOffsetS > 0 {
 		availTimeS -= availabilityTimeOffsetS
 	}
-	if availTimeS > nowS {
-		return newErrTooEarly(int(math.Round((availTimeS - nowS) * 1000.0)))
+	// The times are multiples of a millisecond (or of a media tick) that have been through float64
+	// arithmetic. They are compared as whole microseconds, so that a segment is not refused at
+	// the very millisecond at which the MPD lists it (e.g. 32.002-0.5 > 31502*0.001 in float64).
+	availUS := math.Round(availTimeS * 1e6)
+	nowUS := math.Round(nowS * 1e6)
+	if availUS > nowUS {
+		return newErrTooEarly(int(math.Round((availUS - nowUS) / 1000.0)))
 	}
-	if availTimeS < nowS-(timeShiftBufferDepthS+timeShiftBufferDepthMarginS) {
+	if availUS < nowUS-math.Round((timeShiftBufferDepthS+timeShiftBufferDepthMarginS)*1e6) {
 		return errGone
 	}
 	return nil
